@@ -1,3 +1,5 @@
 SPECIFICATION Spec
+CONSTANTS
+  MaxId = 31
 POSTCONDITION Accepted
 CHECK_DEADLOCK FALSE
